@@ -51,6 +51,10 @@ type MockProvider struct {
 	Err        error
 	ReturnCtx  bool          // return ctx.Err() instead of nil on cancel
 	IgnoreStop time.Duration // keep running this long after cancel (slow stop)
+	// Buffer: size of the provider's queue. With Buffer ≥ Items the whole supply is queued at once
+	// and Run returns while the ammo is still waiting to be taken (as the file providers do with
+	// a small file and their queue of thousands).
+	Buffer int
 
 	ch          chan *MockAmmo
 	once        sync.Once
@@ -67,7 +71,7 @@ type MockProvider struct {
 }
 
 func (p *MockProvider) init() {
-	p.once.Do(func() { p.ch = make(chan *MockAmmo) })
+	p.once.Do(func() { p.ch = make(chan *MockAmmo, p.Buffer) })
 }
 
 func (p *MockProvider) closeQueue() { p.closeOnce.Do(func() { close(p.ch) }) }
